@@ -60,7 +60,10 @@ class MultiSite:
             if k == 0:
                 # copy 0 starts after the (possibly rewritten) head: take as many lines as the original copy has
                 start = max(0, i - (self.tail_lines - 2))
-            segs.append(lines[start:i])
+            seg = lines[start:i]
+            if k > 0 and seg and not seg[0].strip():
+                seg = seg[1:]  # the blank separator line that follows the previous marker is not part of this copy
+            segs.append(seg)
             start = i + 1
         return segs
 
